@@ -24,7 +24,9 @@ exec(open(os.path.join(HERE, "tools", "manifest_table.py")).read())
 
 ADD = {
  "C01": " Also decided: every early exit of the Retry loop puts the unattempted entries back; the reconnect loop stops only on request (context done, Disconnect, graceful end); the reader goroutine records the connection error before Done() closes (the loop reads Err() right after it); the context the reconnect loop dials with is rebound to context.Background() at the first success, so the loop outlives the context passed to Connect; a task leaves the task queue only by being popped from its front by the task goroutine, and the popped task is executed on every path.",
- "C02": " Also decided: every failure of the QoS 2 exchange after registration carries a retry handle that the error wrappers keep; early exits of the Retry loop put the unattempted entries back.",
+ "C02": " Also decided: every failure of the QoS 2 exchange after registration carries a retry handle that the error wrappers keep; early exits of the Retry loop put the unattempted entries back; the handles of the QoS 2 exchange re-issue their stage with the context and client Retry gives them and capture nothing of the failed attempt (R-C02-8).",
+ "C03": " Also decided: Retry stops at the first failing retransmission (entries run on a broken connection queue themselves again and arrive out of order).",
+ "C16": " Also decided: the keep-alive goroutine records KeepAlive's result only while its own context is live (a stopped keep-alive does not turn Err() non-nil after a graceful Disconnect); on the `disconnected` case the reconnect loop does not close the connection itself (R-C16-6).",
  "C04": " Also decided: the Message a PUBLISH is parsed into is a fresh object per packet (a held QoS 2 message cannot be overwritten by the next PUBLISH).",
  "C05": " Also decided: Message.Dup is assigned on every path before the PUBLISH is packed (the DUP bit on the wire is the one decided for this transmission); the inbound identifier is read at the offset right after the topic; the subscription list that re-SUBSCRIBE packets are built from records the requested QoS before BaseClient.Subscribe overwrites it with the granted one.",
  "C07": " Also decided: a wait shared between the QoS levels has no live case on the waiter of another acknowledgement kind (a PUBACK cannot complete the PUBREC stage).",
